@@ -111,25 +111,67 @@ void Ctx::c04() {
             if (nc->broker_closed) end = std::min(end, nc->t_broker_closed);
             if (sp.delivered_t + T > end) continue;
             bool stalled = false;
-            for (auto& mk : s.marks) if (mk.kind == MarkKind::stall && mk.t >= sp.delivered_t - 30 * SEC && mk.t <= sp.delivered_t + T) stalled = true;
+            for (auto& mk : s.marks) if (mk.kind == MarkKind::stall && mk.t - (ns_t)mk.arg <= sp.delivered_t + T && mk.t >= sp.delivered_t) stalled = true;   // the mark is set at the end of the stall
             if (stalled) continue;
             uint8_t want;
             if (sp.pkt.type == PUBLISH) {
-                if (m.sends != 1 || sp.pkt.dup) continue;
+                if (m.publish_idx.empty() || m.publish_idx[0] != sp.idx || sp.pkt.dup) continue;
                 want = sp.pkt.qos == 1 ? PUBACK : PUBREC;
             } else {
-                if (m.pubrel_idx.size() != 1 || m.sends != 1) continue;
+                if (m.pubrel_idx.empty() || m.pubrel_idx[0] != sp.idx || m.publish_idx.size() != 1) continue;
                 bool pubrec_here = false;
                 for (auto& r : B.recv) if (r.decode_err.empty() && r.pkt.type == PUBREC && r.pkt.pid == sp.pkt.pid && r.conn == sp.conn && r.seq > m.first_send_seq && r.seq < sp.seq) pubrec_here = true;
                 if (!pubrec_here) continue;
                 want = PUBCOMP;
             }
+            // no composed write of this connection may have taken long inside the window (short writes with slow completions add up)
+            bool slow_write = false;
+            for (auto& g : s.net.groups) if (g.conn == sp.conn && g.t_start <= sp.delivered_t + T && (!g.done || g.t_done >= sp.delivered_t) && (!g.done || g.t_done - g.t_start > 2 * SEC)) slow_write = true;
+            if (slow_write) continue;
             bool acked = false;
             for (auto& r : B.recv) if (r.decode_err.empty() && r.pkt.type == want && r.pkt.pid == sp.pkt.pid && r.conn == sp.conn && r.seq > sp.delivered_seq && r.t <= sp.delivered_t + T) acked = true;
             if (!acked)
                 fail("C04", sp.pkt.type == PUBREL ? "pubrel_not_answered_promptly" : "publish_not_acknowledged_promptly",
                      "conn " + std::to_string(sp.conn) + ": " + packet_str(sp.pkt) + " of message " + std::to_string(m.id) + " was delivered at t=" + std::to_string(sp.delivered_t / 1000000) +
                      " ms on a connection that stayed up and fault-free for 10 more seconds, but no " + ptype_name(want) + " came within them");
+        }
+    }
+
+    // wire, without any timing assumption: a PUBREL (first transmission, PUBREC written on this connection by a write that was
+    // reported successful) has been parsed and dispatched once the client started a later read on the connection; the waiter for
+    // it is registered by the completion handler of the PUBREC write, which then finds the parked PUBREL and queues the PUBCOMP
+    // from a posted continuation. Handlers run in FIFO order, so when a composed write that STARTED after both events has
+    // completed, the PUBCOMP is queued, and the write after that one carries it (acknowledgements are never throttled). Three
+    // later composed writes without the PUBCOMP mean the PUBREL was dropped.
+    for (auto& sp : B.sent) {
+        if (sp.hostile || !sp.delivered_seq || sp.pkt.type != PUBREL || sp.msg < 0 || sp.msg >= (int)B.msgs.size() || B.knobs.dup_ack_p > 0) continue;
+        auto& m = B.msgs[sp.msg];
+        auto* nc = s.net.conn(sp.conn);
+        if (!nc || m.session_lost || m.pubrel_idx.empty() || m.pubrel_idx[0] != sp.idx || m.publish_idx.size() != 1) continue;   // first PUBREL of an exchange that began here
+        if (multi_gen_active(sp.seq, sp.delivered_seq + 1)) continue;
+        const bk::RecvPkt* rec = nullptr;
+        for (auto& r : B.recv) if (r.decode_err.empty() && r.pkt.type == PUBREC && r.pkt.pid == sp.pkt.pid && r.conn == sp.conn && r.seq > m.first_send_seq && r.seq < sp.seq) rec = &r;
+        if (!rec || !rec->group) continue;
+        auto& rg = s.net.groups[rec->group - 1];
+        if (!rg.done || rg.result) continue;
+        uint64_t read_after = 0;
+        for (auto& rr : s.net.reads) if (rr.conn == sp.conn && rr.seq_start > sp.delivered_seq) { read_after = rr.seq_start; break; }
+        if (!read_after) continue;
+        uint64_t X = std::max(read_after, rg.seq_done);
+        // an older QoS 2 exchange with this identifier that was cut short may have left a waiter behind (K3): not this rule's business
+        if (history_of(s, m).multi_conn) continue;
+        int later = 0; uint64_t third_start = 0;
+        for (auto& g : s.net.groups) if (g.conn == sp.conn && g.seq_start > X) { if (++later == 3) { third_start = g.seq_start; break; } }
+        if (later < 3) continue;
+        bool answered = false;
+        for (auto& r : B.recv) if (r.decode_err.empty() && r.pkt.type == PUBCOMP && r.pkt.pid == sp.pkt.pid && r.conn == sp.conn && r.seq > sp.delivered_seq) answered = true;
+        // the PUBCOMP may sit in a write that never reached the broker: look at what the client handed to the transport instead
+        if (!answered) {
+            bool cancelled_by_app = false;
+            for (auto& mk : s.marks) if ((mk.kind == MarkKind::cancel_client || mk.kind == MarkKind::disconnect_init || mk.kind == MarkKind::destroy || mk.kind == MarkKind::teardown_begin) && mk.seq <= third_start + 50) cancelled_by_app = true;
+            if (cancelled_by_app || nc->transport_fault || nc->blackhole || nc->severed) continue;
+            fail("C04", "pubrel_dropped", "conn " + std::to_string(sp.conn) + ": " + packet_str(sp.pkt) + " of message " + std::to_string(m.id) + " was read and dispatched (seq " + std::to_string(read_after) +
+                 "), its PUBREC write had completed (seq " + std::to_string(rg.seq_done) + "), the client started three more writes on the connection afterwards, and none carried the PUBCOMP");
         }
     }
 
@@ -176,6 +218,13 @@ void Ctx::c04() {
                     if (!r.decode_err.empty() || r.pkt.type != PUBREC || r.pkt.pid != m.pid || r.seq < m.first_send_seq || !r.group) continue;
                     auto& g = s.net.groups[r.group - 1];
                     for (int si : m.pubrel_idx) if (B.sent[si].delivered_seq && (!g.done || B.sent[si].delivered_seq < g.seq_done)) early_pubrel = true;
+                    // ... and it is K12's history only if that one PUBREL was answered on its connection (a PUBREL that had to be
+                    // retransmitted, or was never answered, is another failure)
+                    if (early_pubrel) {
+                        bool answered = false;
+                        for (auto& r2 : B.recv) if (r2.decode_err.empty() && r2.pkt.type == PUBCOMP && r2.pkt.pid == m.pid && r2.conn == r.conn && r2.seq > r.seq) answered = true;
+                        if (m.pubrel_idx.size() != 1 || !answered) early_pubrel = false;
+                    }
                     break;
                 }
             if (m.first_send_seq < last_first_send)
